@@ -266,99 +266,118 @@ theorem invF_step (nw : Network) (hn : NetHyp nw) (s : Schedule) (op : SOp) (r :
     (hinv : InvF nw s) (hargs : ArgsOKF op) (h : applyOp nw s op = .ok r) : InvF nw r.sched :=
   ⟨C10_forms_step nw hn s op r hinv.inv hargs h, fresh_step nw s op r hinv.fresh h⟩
 
-theorem invF_improve {nw : Network} (hn : NetHyp nw) {s s' : Schedule} {vs : Option (List Veh)}
-    (hinv : InvF nw s) (h : improveDepots nw s vs = .ok s') : InvF nw s' := by
+theorem tour_ne_fresh {nw : Network} {s : Schedule} (hinv : InvF nw s) {p : Veh} {pt : Tour}
+    (h : s.tourOf? p = some pt) : p ≠ Veh.dum s.counter := by
+  intro e
+  by_cases hdm : s.isDummy p = true
+  · have := hinv.fresh p (by unfold Schedule.isDummy at hdm; exact hdm)
+    rw [e] at this; simp [Veh.dum] at this
+  · have hget := tourOf_not_dummy h (by simpa using hdm)
+    have := (hinv.inv.tinv.listing.fresh p (by show (assocGet? s.tours p).isSome = true; simp [hget])).1
+    rw [e] at this; simp [Veh.dum] at this
+
+/-- an invariant of schedules that every public modification preserves (under the argument
+    conditions), that knows the providers of reassignments are not the next dummy id, and that does
+    not depend on the rotation cycles -/
+structure StepInv (nw : Network) (J : Schedule → Prop) : Prop where
+  step : ∀ s op r, J s → ArgsOKF op → applyOp nw s op = .ok r → J r.sched
+  fresh : ∀ s p pt, J s → s.tourOf? p = some pt → p ≠ Veh.dum s.counter
+  setT : ∀ s trans, J s → J (setNextDayTransitions s trans)
+  empty : J (Schedule.empty nw)
+
+theorem invF_improve {nw : Network} {J : Schedule → Prop} (hJ : StepInv nw J) {s s' : Schedule} {vs : Option (List Veh)}
+    (hinv : J s) (h : improveDepots nw s vs = .ok s') : J s' := by
   have : applyOp nw s (.improve vs) = .ok { sched := s' } := by simp [applyOp, h, bind, Except.bind, pure, Except.pure]
-  exact invF_step nw hn s (.improve vs) _ hinv trivial this
+  exact hJ.step s (.improve vs) _ hinv trivial this
 
-theorem invF_recompute {nw : Network} (hn : NetHyp nw) {s s' : Schedule} {vts : Option (List Nat)}
-    (hinv : InvF nw s) (h : recomputeTransitionsFor nw s vts = .ok s') : InvF nw s' := by
+theorem invF_recompute {nw : Network} {J : Schedule → Prop} (hJ : StepInv nw J) {s s' : Schedule} {vts : Option (List Nat)}
+    (hinv : J s) (h : recomputeTransitionsFor nw s vts = .ok s') : J s' := by
   have : applyOp nw s (.recompute vts) = .ok { sched := s' } := by simp [applyOp, h, bind, Except.bind, pure, Except.pure]
-  exact invF_step nw hn s (.recompute vts) _ hinv trivial this
+  exact hJ.step s (.recompute vts) _ hinv trivial this
 
-theorem invF_rmSeg {nw : Network} (hn : NetHyp nw) {s s' : Schedule} {v : Veh} {a b : Nat}
-    (hinv : InvF nw s) (h : removeSegment nw s v a b = .ok s') : InvF nw s' := by
+theorem invF_rmSeg {nw : Network} {J : Schedule → Prop} (hJ : StepInv nw J) {s s' : Schedule} {v : Veh} {a b : Nat}
+    (hinv : J s) (h : removeSegment nw s v a b = .ok s') : J s' := by
   have : applyOp nw s (.rmSeg v a b) = .ok { sched := s' } := by simp [applyOp, h, bind, Except.bind, pure, Except.pure]
-  exact invF_step nw hn s (.rmSeg v a b) _ hinv trivial this
+  exact hJ.step s (.rmSeg v a b) _ hinv trivial this
 
-theorem invF_spawn {nw : Network} (hn : NetHyp nw) {s s' : Schedule} {vt : Nat} {path : List Nat} {v : Veh}
-    (hinv : InvF nw s) (h : spawnVehicleForPath nw s vt path = .ok (s', v)) : InvF nw s' := by
+theorem invF_spawn {nw : Network} {J : Schedule → Prop} (hJ : StepInv nw J) {s s' : Schedule} {vt : Nat} {path : List Nat} {v : Veh}
+    (hinv : J s) (h : spawnVehicleForPath nw s vt path = .ok (s', v)) : J s' := by
   have : applyOp nw s (.spawn vt path) = .ok { sched := s', retVeh := some v } := by
     simp [applyOp, h, bind, Except.bind, pure, Except.pure]
-  exact invF_step nw hn s (.spawn vt path) _ hinv trivial this
+  exact hJ.step s (.spawn vt path) _ hinv trivial this
 
-theorem invF_dummySpawn {nw : Network} (hn : NetHyp nw) {s s' : Schedule} {d : Veh} {vt : Nat} {v : Veh}
-    (hinv : InvF nw s) (h : spawnToReplaceDummy nw s d vt = .ok (s', v)) : InvF nw s' := by
+theorem invF_dummySpawn {nw : Network} {J : Schedule → Prop} (hJ : StepInv nw J) {s s' : Schedule} {d : Veh} {vt : Nat} {v : Veh}
+    (hinv : J s) (h : spawnToReplaceDummy nw s d vt = .ok (s', v)) : J s' := by
   have : applyOp nw s (.dummySpawn d vt) = .ok { sched := s', retVeh := some v } := by
     simp [applyOp, h, bind, Except.bind, pure, Except.pure]
-  exact invF_step nw hn s (.dummySpawn d vt) _ hinv trivial this
+  exact hJ.step s (.dummySpawn d vt) _ hinv trivial this
 
-theorem invF_addSingle {nw : Network} (hn : NetHyp nw) {s s' : Schedule} {v : Veh} {n : Nat} {rm : Option (List Nat)}
-    (hinv : InvF nw s) (hnd : (nw.node n).isDepot = false) (h : addPathToVehicleTour nw s v [n] = .ok (s', rm)) :
-    InvF nw s' := by
+theorem invF_addSingle {nw : Network} {J : Schedule → Prop} (hJ : StepInv nw J) {s s' : Schedule} {v : Veh} {n : Nat} {rm : Option (List Nat)}
+    (hinv : J s) (hnd : (nw.node n).isDepot = false) (h : addPathToVehicleTour nw s v [n] = .ok (s', rm)) :
+    J s' := by
   have : applyOp nw s (.addPath v [n]) = .ok { sched := s', retPath := rm } := by
     simp [applyOp, pathNew_single nw n hnd, h, bind, Except.bind, pure, Except.pure]
-  exact invF_step nw hn s (.addPath v [n]) _ hinv trivial this
+  exact hJ.step s (.addPath v [n]) _ hinv trivial this
 
-theorem invF_fit {nw : Network} (hn : NetHyp nw) {s s' : Schedule} {p r : Veh} {a b : Nat}
-    (hinv : InvF nw s) (hne : p ≠ r) (h : fitReassign nw s p r a b = .ok s') : InvF nw s' := by
+theorem invF_fit {nw : Network} {J : Schedule → Prop} (hJ : StepInv nw J) {s s' : Schedule} {p r : Veh} {a b : Nat}
+    (hinv : J s) (hne : p ≠ r) (h : fitReassign nw s p r a b = .ok s') : J s' := by
   have : applyOp nw s (.fit p r a b) = .ok { sched := s' } := by simp [applyOp, h, bind, Except.bind, pure, Except.pure]
-  exact invF_step nw hn s (.fit p r a b) _ hinv hne this
+  exact hJ.step s (.fit p r a b) _ hinv hne this
 
-theorem invF_override {nw : Network} (hn : NetHyp nw) {s : Schedule} {p r : Veh} {a b : Nat}
-    {x : Schedule × Option Veh} (hinv : InvF nw s) (hne : p ≠ r) (h : overrideReassign nw s p r a b = .ok x) :
-    InvF nw x.1 := by
+theorem invF_override {nw : Network} {J : Schedule → Prop} (hJ : StepInv nw J) {s : Schedule} {p r : Veh} {a b : Nat}
+    {x : Schedule × Option Veh} (hinv : J s) (hne : p ≠ r) (h : overrideReassign nw s p r a b = .ok x) :
+    J x.1 := by
   have : applyOp nw s (.override p r a b) = .ok { sched := x.1, retDummy := x.2 } := by
     simp [applyOp, h, bind, Except.bind, pure, Except.pure]
-  exact invF_step nw hn s (.override p r a b) _ hinv hne this
+  exact hJ.step s (.override p r a b) _ hinv hne this
 
-theorem invF_endConsistent {nw : Network} (hn : NetHyp nw) {s s' : Schedule}
-    (hinv : InvF nw s) (h : reassignEndDepotsConsistent nw s = .ok s') : InvF nw s' := by
+theorem invF_endConsistent {nw : Network} {J : Schedule → Prop} (hJ : StepInv nw J) {s s' : Schedule}
+    (hinv : J s) (h : reassignEndDepotsConsistent nw s = .ok s') : J s' := by
   have : applyOp nw s .endConsistent = .ok { sched := s' } := by simp [applyOp, h, bind, Except.bind, pure, Except.pure]
-  exact invF_step nw hn s .endConsistent _ hinv trivial this
+  exact hJ.step s .endConsistent _ hinv trivial this
 
-theorem invF_idr {nw : Network} (hn : NetHyp nw) {s c : Schedule} {changed : List Veh}
-    (hinv : InvF nw s) (h : improveDepotAndRecompute nw s changed = .ok c) : InvF nw c := by
+theorem invF_idr {nw : Network} {J : Schedule → Prop} (hJ : StepInv nw J) {s c : Schedule} {changed : List Veh}
+    (hinv : J s) (h : improveDepotAndRecompute nw s changed = .ok c) : J c := by
   unfold improveDepotAndRecompute at h
   obtain ⟨types, _, h⟩ := bind_ok h
   obtain ⟨s1, h1, h⟩ := bind_ok h
-  exact invF_recompute hn (invF_improve hn hinv h1) h
+  exact invF_recompute hJ (invF_improve hJ hinv h1) h
 
 /-! ### the swaps preserve the invariant -/
 
 syntax "invF_chain " ident ident : tactic
 macro_rules
-  | `(tactic| invF_chain $hn:ident $hinv:ident) => `(tactic|
+  | `(tactic| invF_chain $hJ:ident $hinv:ident) => `(tactic|
     first
       | exact $hinv
-      | exact invF_idr $hn $hinv (by assumption)
-      | exact invF_idr $hn (invF_addSingle $hn $hinv (by assumption) (by assumption)) (by assumption)
-      | exact invF_idr $hn (invF_spawn $hn (invF_addSingle $hn $hinv (by assumption) (by assumption)) (by assumption)) (by assumption)
-      | exact invF_idr $hn (invF_addSingle $hn (invF_rmSeg $hn $hinv (by assumption)) (by assumption) (by assumption)) (by assumption)
-      | exact invF_idr $hn (invF_spawn $hn (invF_addSingle $hn (invF_rmSeg $hn $hinv (by assumption)) (by assumption) (by assumption)) (by assumption)) (by assumption))
+      | exact invF_idr $hJ $hinv (by assumption)
+      | exact invF_idr $hJ (invF_addSingle $hJ $hinv (by assumption) (by assumption)) (by assumption)
+      | exact invF_idr $hJ (invF_spawn $hJ (invF_addSingle $hJ $hinv (by assumption) (by assumption)) (by assumption)) (by assumption)
+      | exact invF_idr $hJ (invF_addSingle $hJ (invF_rmSeg $hJ $hinv (by assumption)) (by assumption) (by assumption)) (by assumption)
+      | exact invF_idr $hJ (invF_spawn $hJ (invF_addSingle $hJ (invF_rmSeg $hJ $hinv (by assumption)) (by assumption) (by assumption)) (by assumption)) (by assumption))
 
-theorem invF_hitchHiking {nw : Network} (hn : NetHyp nw) {s c : Schedule} {node : Nat} {v : Veh}
-    (hinv : InvF nw s) (h : hitchHiking nw s node v = .ok c) : InvF nw c := by
+theorem invF_hitchHiking {nw : Network} {J : Schedule → Prop} (hJ : StepInv nw J) {s c : Schedule} {node : Nat} {v : Veh}
+    (hinv : J s) (h : hitchHiking nw s node v = .ok c) : J c := by
   unfold hitchHiking at h
   inv_do h
   all_goals (try contradiction)
   all_goals (try (cases h; done))
   all_goals (simp only [pure, Except.pure, Except.ok.injEq, Bool.not_eq_true] at *)
   all_goals (subst_vars)
-  all_goals (invF_chain hn hinv)
+  all_goals (invF_chain hJ hinv)
 
-theorem invF_removeSingleNode {nw : Network} (hn : NetHyp nw) {s c : Schedule} {node : Nat} {v : Veh}
-    (hinv : InvF nw s) (h : removeSingleNode nw s node v = .ok c) : InvF nw c := invF_rmSeg hn hinv h
+theorem invF_removeSingleNode {nw : Network} {J : Schedule → Prop} (hJ : StepInv nw J) {s c : Schedule} {node : Nat} {v : Veh}
+    (hinv : J s) (h : removeSingleNode nw s node v = .ok c) : J c := invF_rmSeg hJ hinv h
 
-theorem invF_spawnForMaintenance {nw : Network} (hn : NetHyp nw) {s c : Schedule} {slot : Nat} {v : Veh}
-    (hinv : InvF nw s) (h : spawnForMaintenance nw s slot v = .ok c) : InvF nw c := by
+theorem invF_spawnForMaintenance {nw : Network} {J : Schedule → Prop} (hJ : StepInv nw J) {s c : Schedule} {slot : Nat} {v : Veh}
+    (hinv : J s) (h : spawnForMaintenance nw s slot v = .ok c) : J c := by
   unfold spawnForMaintenance at h
   inv_do h
   all_goals (try contradiction)
   all_goals (try (cases h; done))
   all_goals (simp only [pure, Except.pure, Except.ok.injEq, Bool.not_eq_true] at *)
   all_goals (subst_vars)
-  all_goals (invF_chain hn hinv)
+  all_goals (invF_chain hJ hinv)
 
 /-- the dummy `override_reassign` creates is `dummy(counter)` -/
 theorem override_newDummy {nw : Network} {s : Schedule} {p r : Veh} {a b : Nat} {x : Schedule × Option Veh} {d : Veh}
@@ -381,18 +400,8 @@ theorem override_prov_tour {nw : Network} {s : Schedule} {p r : Veh} {a b : Nat}
   all_goals (try (cases h; done))
   all_goals exact ⟨_, unwrapO_ok (by assumption : unwrapO (s.tourOf? p) _ = .ok _)⟩
 
-theorem tour_ne_fresh {nw : Network} {s : Schedule} (hinv : InvF nw s) {p : Veh} {pt : Tour}
-    (h : s.tourOf? p = some pt) : p ≠ Veh.dum s.counter := by
-  intro e
-  by_cases hdm : s.isDummy p = true
-  · have := hinv.fresh p (by unfold Schedule.isDummy at hdm; exact hdm)
-    rw [e] at this; simp [Veh.dum] at this
-  · have hget := tourOf_not_dummy h (by simpa using hdm)
-    have := (hinv.inv.tinv.listing.fresh p (by show (assocGet? s.tours p).isSome = true; simp [hget])).1
-    rw [e] at this; simp [Veh.dum] at this
-
-theorem invF_pathExchange {nw : Network} (hn : NetHyp nw) {s c : Schedule} {a b : Nat} {p r : Veh}
-    (hinv : InvF nw s) (hne : p ≠ r) (h : pathExchange nw s a b p r = .ok c) : InvF nw c := by
+theorem invF_pathExchange {nw : Network} {J : Schedule → Prop} (hJ : StepInv nw J) {s c : Schedule} {a b : Nat} {p r : Veh}
+    (hinv : J s) (hne : p ≠ r) (h : pathExchange nw s a b p r = .ok c) : J c := by
   unfold pathExchange at h
   inv_do h
   all_goals (try contradiction)
@@ -400,21 +409,21 @@ theorem invF_pathExchange {nw : Network} (hn : NetHyp nw) {s c : Schedule} {a b 
   all_goals (simp only [pure, Except.pure, Except.ok.injEq, Bool.not_eq_true] at *)
   all_goals (subst_vars)
   all_goals (
-    have i1 := invF_override (p := p) (r := r) hn hinv hne (by assumption)
+    have i1 := invF_override (p := p) (r := r) hJ hinv hne (by assumption)
     first
-    | exact invF_idr hn i1 (by assumption)
-    | exact invF_idr hn (invF_dummySpawn hn i1 (by assumption)) (by assumption)
+    | exact invF_idr hJ i1 (by assumption)
+    | exact invF_idr hJ (invF_dummySpawn hJ i1 (by assumption)) (by assumption)
     | (obtain ⟨pt, hpt⟩ := override_prov_tour (p := p) (r := r) (by assumption)
        have hdp := override_newDummy (p := p) (r := r) (by assumption) rfl
-       have hpne := tour_ne_fresh hinv hpt
+       have hpne := hJ.fresh _ _ _ hinv hpt
        have hne2 : ∀ d : Veh, d = Veh.dum s.counter → d ≠ p := fun d e => by rw [e]; exact fun e' => hpne e'.symm
-       exact invF_idr hn (invF_fit hn i1 (hne2 _ hdp) (by assumption)) (by assumption)))
+       exact invF_idr hJ (invF_fit hJ i1 (hne2 _ hdp) (by assumption)) (by assumption)))
 
 /-! ### neighbourhood, search, pipeline -/
 
-theorem neighbors_invF {nw : Network} (hn : NetHyp nw) {limit threshold : Option Nat} {s : Schedule} {last : SwapInfo}
-    {cands : List Candidate} (hinv : InvF nw s) (h : neighborsOf nw limit threshold s last = .ok cands) :
-    ∀ c ∈ cands, InvF nw c.sched := by
+theorem neighbors_invF {nw : Network} {J : Schedule → Prop} (hJ : StepInv nw J) {limit threshold : Option Nat} {s : Schedule} {last : SwapInfo}
+    {cands : List Candidate} (hinv : J s) (h : neighborsOf nw limit threshold s last = .ok cands) :
+    ∀ c ∈ cands, J c.sched := by
   unfold neighborsOf at h
   dsimp only at h
   obtain ⟨c1, h1, h⟩ := bind_ok h
@@ -429,7 +438,7 @@ theorem neighbors_invF {nw : Network} (hn : NetHyp nw) {limit threshold : Option
   · obtain ⟨l1, ⟨l0, hl0, hl1⟩, hc⟩ := hc
     obtain ⟨m, _, e0⟩ := mem_mapMR h1 l0 hl0
     obtain ⟨v, _, e1⟩ := mem_mapMR e0 l1 hl1
-    exact invF_spawnForMaintenance hn hinv (okOnly_mem e1 hc)
+    exact invF_spawnForMaintenance hJ hinv (okOnly_mem e1 hc)
   · obtain ⟨l2, ⟨l1, ⟨l0, hl0, hl1⟩, hl2⟩, hc⟩ := hc
     obtain ⟨p, _, e0⟩ := mem_mapMR h2 l0 hl0
     obtain ⟨segs, _, e0⟩ := bind_ok e0
@@ -438,47 +447,44 @@ theorem neighbors_invF {nw : Network} (hn : NetHyp nw) {limit threshold : Option
     have hne : p ≠ r := by
       have := (List.mem_filter.mp hr).2
       intro e; subst e; simp at this
-    exact invF_pathExchange hn hinv hne (okOnly_mem e2 hc)
+    exact invF_pathExchange hJ hinv hne (okOnly_mem e2 hc)
   · obtain ⟨l1, ⟨l0, hl0, hl1⟩, hc⟩ := hc
     obtain ⟨v, _, e0⟩ := mem_mapMR h3 l0 hl0
     obtain ⟨vt, _, e0⟩ := bind_ok e0
     obtain ⟨n, _, e1⟩ := mem_mapMR e0 l1 hl1
-    exact invF_hitchHiking hn hinv (okOnly_mem e1 hc)
+    exact invF_hitchHiking hJ hinv (okOnly_mem e1 hc)
   · obtain ⟨l1, ⟨l0, hl0, hl1⟩, hc⟩ := hc
     obtain ⟨v, _, e0⟩ := mem_mapMR h4 l0 hl0
     obtain ⟨t, _, e0⟩ := bind_ok e0
     obtain ⟨n, _, e1⟩ := mem_mapMR e0 l1 hl1
-    exact invF_removeSingleNode hn hinv (okOnly_mem e1 hc)
+    exact invF_removeSingleNode hJ hinv (okOnly_mem e1 hc)
 
-theorem nbrs_invF {nw : Network} (hn : NetHyp nw) {limit threshold : Option Nat} {s c : Schedule}
-    (hinv : InvF nw s) (hc : c ∈ Solve.nbrs nw limit threshold s) : InvF nw c := by
+theorem nbrs_invF {nw : Network} {J : Schedule → Prop} (hJ : StepInv nw J) {limit threshold : Option Nat} {s c : Schedule}
+    (hinv : J s) (hc : c ∈ Solve.nbrs nw limit threshold s) : J c := by
   unfold Solve.nbrs at hc
   split at hc
   · rename_i cs hcs
     obtain ⟨cand, hm, e⟩ := List.mem_map.mp hc
-    rw [← e]; exact neighbors_invF hn hinv hcs cand hm
+    rw [← e]; exact neighbors_invF hJ hinv hcs cand hm
   · cases hc
 
 /-- **C11 / C03 / C10 at search level**: formation membership, valid real and dummy tours and the
     listing hold for every schedule the local search accepts and for its result, whatever the fuel -/
-theorem search_invF (nw : Network) (hn : NetHyp nw) (limit threshold : Option Nat) :
-    ∀ (fuel : Nat) (s : Schedule), InvF nw s →
-    InvF nw (searchFuel Schedule.objective (Solve.nbrs nw limit threshold) fuel s).1
+theorem search_invF (nw : Network) {J : Schedule → Prop} (hJ : StepInv nw J) (limit threshold : Option Nat) :
+    ∀ (fuel : Nat) (s : Schedule), J s →
+    J (searchFuel Schedule.objective (Solve.nbrs nw limit threshold) fuel s).1
   | 0, s, h => h
   | fuel + 1, s, h => by
     unfold searchFuel
     split
     · exact h
     · rename_i s' hs'
-      exact search_invF nw hn limit threshold fuel s' (nbrs_invF hn h (improve_mem _ _ s s' hs'))
+      exact search_invF nw hJ limit threshold fuel s' (nbrs_invF hJ h (improve_mem _ _ s s' hs'))
 
-theorem empty_invF (nw : Network) : InvF nw (Schedule.empty nw) :=
-  ⟨empty_inv nw, by intro d hd; simp [Schedule.empty, assocGet?_nil] at hd⟩
-
-theorem spawnFold_invF {nw : Network} (hn : NetHyp nw) (vt : Nat) : ∀ (tours : List (List Nat)) (s c : Schedule),
-    InvF nw s → tours.foldlM (fun (sc : Schedule) tour => do
+theorem spawnFold_invF {nw : Network} {J : Schedule → Prop} (hJ : StepInv nw J) (vt : Nat) : ∀ (tours : List (List Nat)) (s c : Schedule),
+    J s → tours.foldlM (fun (sc : Schedule) tour => do
       let (s', _) ← spawnVehicleForPath nw sc vt tour
-      pure s') s = .ok c → InvF nw c
+      pure s') s = .ok c → J c
   | [], s, c, hi, h => by
     simp only [List.foldlM_nil, pure, Except.pure, Except.ok.injEq] at h; rw [← h]; exact hi
   | t :: rest, s, c, hi, h => by
@@ -487,23 +493,49 @@ theorem spawnFold_invF {nw : Network} (hn : NetHyp nw) (vt : Nat) : ∀ (tours :
     obtain ⟨⟨s', v⟩, hs, h1⟩ := bind_ok h1
     simp only [pure, Except.pure, Except.ok.injEq] at h1
     subst h1
-    exact spawnFold_invF hn vt rest _ c (invF_spawn hn hi hs) h
+    exact spawnFold_invF hJ vt rest _ c (invF_spawn hJ hi hs) h
 
-theorem fromToursFold_invF {nw : Network} (hn : NetHyp nw) : ∀ (byType : List (Nat × List (List Nat))) (s c : Schedule),
-    InvF nw s → byType.foldlM (fun (sch : Schedule) (p : Nat × List (List Nat)) =>
+theorem fromToursFold_invF {nw : Network} {J : Schedule → Prop} (hJ : StepInv nw J) : ∀ (byType : List (Nat × List (List Nat))) (s c : Schedule),
+    J s → byType.foldlM (fun (sch : Schedule) (p : Nat × List (List Nat)) =>
       p.2.foldlM (fun (sc : Schedule) tour => do
         let (s', _) ← spawnVehicleForPath nw sc p.1 tour
-        pure s') sch) s = .ok c → InvF nw c
+        pure s') sch) s = .ok c → J c
   | [], s, c, hi, h => by
     simp only [List.foldlM_nil, pure, Except.pure, Except.ok.injEq] at h; rw [← h]; exact hi
   | p :: rest, s, c, hi, h => by
     rw [List.foldlM_cons] at h
     obtain ⟨s1, h1, h⟩ := bind_ok h
-    exact fromToursFold_invF hn rest s1 c (spawnFold_invF hn p.1 p.2 s s1 hi h1) h
+    exact fromToursFold_invF hJ rest s1 c (spawnFold_invF hJ p.1 p.2 s s1 hi h1) h
 
-theorem invF_setTransitions {nw : Network} {s : Schedule} (trans : List (Nat × Transition)) (h : InvF nw s) :
-    InvF nw (setNextDayTransitions s trans) :=
-  ⟨⟨⟨h.inv.tinv.listing, h.inv.tinv.dummies, h.inv.tinv.tours⟩, h.inv.dok, h.inv.forms⟩, h.fresh⟩
+/-- every stage of the modelled pipeline satisfies the invariant -/
+theorem solve_inv {nw : Network} {J : Schedule → Prop} (hJ : StepInv nw J) (o : Solve.Oracle) (tr : Solve.Trace)
+    (h : Solve.solve nw o = .ok tr) : J tr.start ∧ J tr.afterSearch ∧ J tr.final := by
+  unfold Solve.solve at h
+  obtain ⟨flow, hf, h⟩ := bind_ok h
+  obtain ⟨start, hs, h⟩ := bind_ok h
+  dsimp only at h
+  obtain ⟨final, hfin, h⟩ := bind_ok h
+  simp only [pure, Except.pure, Except.ok.injEq] at h
+  subst h
+  dsimp only
+  have i1 : J flow := fromToursFold_invF hJ o.tours _ flow hJ.empty hf
+  have i2 : J start := invF_improve hJ i1 hs
+  have i3 : J (if nw.maintNodes.isEmpty then start
+      else (searchFuel Schedule.objective (Solve.nbrs nw o.limit o.threshold) o.fuel start).1) := by
+    split
+    · exact i2
+    · exact search_invF nw hJ o.limit o.threshold o.fuel start i2
+  have i4 := hJ.setT _ (o.optimise (if nw.maintNodes.isEmpty then start
+      else (searchFuel Schedule.objective (Solve.nbrs nw o.limit o.threshold) o.fuel start).1)) i3
+  exact ⟨i2, i3, invF_endConsistent hJ i4 hfin⟩
+
+/-! ### the instance: formation membership, valid tours, dummy ids -/
+
+theorem stepInv_invF {nw : Network} (hn : NetHyp nw) : StepInv nw (InvF nw) where
+  step := fun s op r hinv hargs h => invF_step nw hn s op r hinv hargs h
+  fresh := fun _ _ _ hinv hpt => tour_ne_fresh hinv hpt
+  setT := fun _ _ h => ⟨⟨⟨h.inv.tinv.listing, h.inv.tinv.dummies, h.inv.tinv.tours⟩, h.inv.dok, h.inv.forms⟩, h.fresh⟩
+  empty := ⟨empty_inv nw, by intro d hd; simp [Schedule.empty, assocGet?_nil] at hd⟩
 
 /-- **C03 / C10 at pipeline level**: for every network satisfying the decidable hypotheses, every
     decoded flow, every number of local-search steps and every transition optimiser — if the modelled
@@ -517,24 +549,13 @@ theorem C03_pipeline_membership (nw : Network) (hn : NetHyp nw) (o : Solve.Oracl
     ∀ n, (formOf tr.final.formations n).Nodup ∧
       ∀ v, v ∈ formOf tr.final.formations n ↔
         ∃ t, assocGet? tr.final.tours v = some t ∧ n ∈ t.nodes ∧ (nw.node n).isDepot = false := by
-  unfold Solve.solve at h
-  obtain ⟨flow, hf, h⟩ := bind_ok h
-  obtain ⟨start, hs, h⟩ := bind_ok h
-  dsimp only at h
-  obtain ⟨final, hfin, h⟩ := bind_ok h
-  simp only [pure, Except.pure, Except.ok.injEq] at h
-  subst h
-  dsimp only
-  have i1 : InvF nw flow := fromToursFold_invF hn o.tours _ flow (empty_invF nw) hf
-  have i2 : InvF nw start := invF_improve hn i1 hs
-  have i3 : InvF nw (if nw.maintNodes.isEmpty then start
-      else (searchFuel Schedule.objective (Solve.nbrs nw o.limit o.threshold) o.fuel start).1) := by
-    split
-    · exact i2
-    · exact search_invF nw hn o.limit o.threshold o.fuel start i2
-  have i4 := invF_setTransitions (nw := nw) (o.optimise (if nw.maintNodes.isEmpty then start
-      else (searchFuel Schedule.objective (Solve.nbrs nw o.limit o.threshold) o.fuel start).1)) i3
-  have i5 : InvF nw final := invF_endConsistent hn i4 hfin
+  obtain ⟨i2, i3, i5⟩ := solve_inv (stepInv_invF hn) o tr h
   exact ⟨i2, i3, i5, fun n => C10_formation_membership hn i5.inv n⟩
+
+/-- every candidate of every neighbourhood satisfies the invariant (C11) -/
+theorem C11_candidates_membership (nw : Network) (hn : NetHyp nw) {limit threshold : Option Nat} {s : Schedule}
+    {last : SwapInfo} {cands : List Candidate} (hinv : InvF nw s)
+    (h : neighborsOf nw limit threshold s last = .ok cands) : ∀ c ∈ cands, InvF nw c.sched :=
+  neighbors_invF (stepInv_invF hn) hinv h
 
 end RSSched.C11A
